@@ -13,10 +13,15 @@ from vlib import core
 LEVEL = "model_checking"
 BUDGET = {"quick": 150, "thorough": 1500}
 
+# (cluster, near, fillers, filler_mode, maxlive, home): see harness/c17_bfs.c
 BFS_CONFIGS = {
-    "quick": [(2, 1, 9, 0), (3, 0, 9, 0), (2, 1, 10, 0), (2, 0, 5, 1), (3, 1, 3, 1)],
-    "thorough": [(2, 1, 9, 0), (3, 0, 9, 0), (2, 1, 10, 0), (2, 0, 5, 1), (3, 1, 3, 1), (3, 1, 9, 0), (4, 0, 9, 0),
-                 (2, 2, 9, 0), (2, 1, 6, 1), (3, 0, 6, 1)],
+    "quick": [(2, 1, 9, 0, 0, -1), (3, 0, 9, 0, 0, -1), (2, 1, 10, 0, 0, -1), (3, 1, 9, 0, 0, -1), (4, 0, 9, 0, 0, -1), (2, 0, 5, 1, 0, -1),
+              (3, 1, 3, 1, 0, -1), (3, 1, 4, 1, 0, -1),
+              (1, 0, 19, 1, 1, -1),                        # churn: 20 keys covering every bucket, at most one live
+              (3, 1, 6, 0, 0, 15), (2, 1, 9, 0, 0, 15), (3, 1, 3, 1, 0, 15)],   # cluster homed at the last bucket: probe wrap-around
+    "thorough": [(2, 1, 9, 0, 0, -1), (3, 0, 9, 0, 0, -1), (2, 1, 10, 0, 0, -1), (3, 1, 9, 0, 0, -1), (4, 0, 9, 0, 0, -1), (2, 0, 5, 1, 0, -1),
+                 (3, 1, 3, 1, 0, -1), (3, 1, 4, 1, 0, -1), (1, 0, 19, 1, 1, -1), (3, 1, 6, 0, 0, 15), (2, 1, 9, 0, 0, 15), (3, 1, 3, 1, 0, 15),
+                 (2, 1, 17, 1, 2, -1), (4, 1, 9, 0, 0, -1), (3, 2, 9, 0, 0, -1), (4, 0, 9, 0, 0, 15), (2, 0, 18, 1, 2, 15)],
 }
 MAXSTATES = {"quick": 3000000, "thorough": 12000000}
 
@@ -46,7 +51,7 @@ def build_whitebox(ctx):
 
 def _run_bfs(args):
     wb, cfg, maxstates = args
-    rc, o, e = core.sh([os.path.join(wb, "bfs")] + [str(x) for x in cfg[:3]] + [str(maxstates), str(cfg[3])], timeout=1400)
+    rc, o, e = core.sh([os.path.join(wb, "bfs")] + [str(x) for x in cfg[:3]] + [str(maxstates), str(cfg[3]), str(cfg[4]), str(cfg[5])], timeout=1400)
     return cfg, rc, o, e
 
 
@@ -67,8 +72,8 @@ def _hist_text(names, hist, split):
     return opts, "\n".join(lines) + "\n"
 
 
-def _expected(names, hist, upto):
-    d = {}
+def _expected(names, hist, upto, init=None):
+    d = dict(init or {})
     for op, k, v in hist[:upto + 1]:
         if op == "fill":
             continue
@@ -90,7 +95,7 @@ def splits_for(hist):
 
 
 def _cli_batch(args):
-    chibicc, wd, names, hists = args
+    chibicc, wd, names, hists, init = args
     os.makedirs(wd, exist_ok=True)
     bad = []
     n = 0
@@ -109,7 +114,7 @@ def _cli_batch(args):
                 problem = "status=%s" % st
             else:
                 for i in ([split - 1] if split > 0 else []) + list(range(split, L)):
-                    exp = _expected(names, hist, i).split()
+                    exp = _expected(names, hist, i, init).split()
                     if str(i) not in got:
                         problem = "probe-missing"
                         break
@@ -137,7 +142,7 @@ def run(ctx):
         if rc != 0 or not m:
             raise core.HarnessError("c17_bfs %s failed rc=%s: %s" % (cfg, rc, (o + e)[-500:]))
         st = dict((k, int(v)) for k, v in (kv.split("=") for kv in m.group(1).split()))
-        per_cfg.append({"cluster": cfg[0], "near": cfg[1], "fillers": cfg[2], "filler_mode": cfg[3], **st})
+        per_cfg.append({"cluster": cfg[0], "near": cfg[1], "fillers": cfg[2], "filler_mode": cfg[3], "maxlive": cfg[4], "home": cfg[5], **st})
         states += st["states"]; transitions += st["transitions"]; rehashes += st["rehashes"]; reuse += st["tomb_reuse"]
         if st["capped"]:
             ctx.incomplete("BFS config %s hit the state cap; covered %d states" % (cfg, st["states"]))
@@ -153,8 +158,8 @@ def run(ctx):
                                   "printf '#pragma once\\n#include \"%%s/chibicc.h\"\\n' $CHIBICC_DIR > $d/chibicc.h; "
                                   "gcc -O2 -w -I$d -o $d/bfs -x c - < c17_bfs.c 2>/dev/null || "
                                   "{ cp c17_bfs.c $d/h.c; gcc -O2 -w -I$d -o $d/bfs $d/h.c || exit 0; }; "
-                                  "$d/bfs %d %d %d %d %d | grep -q '^VIOL %s ' && exit 1; exit 0"
-                                  % (cfg[0], cfg[1], cfg[2], MAXSTATES[ctx.tier], cfg[3], kind)))
+                                  "$d/bfs %d %d %d %d %d %d %d | grep -q '^VIOL %s ' && exit 1; exit 0"
+                                  % (cfg[0], cfg[1], cfg[2], MAXSTATES[ctx.tier], cfg[3], cfg[4], cfg[5], kind)))
         for sm in re.finditer(r"SAMPLE (.*)", o):
             ctx.sample({"level": 1, "config": list(cfg), "history_to_a_reached_state": sm.group(1).strip()}, limit=3)
     if rehashes == 0 or reuse == 0:
@@ -163,59 +168,84 @@ def run(ctx):
               bfs_tombstone_reuse_transitions=reuse, bfs_configs=per_cfg)
 
     # ---------------- level 2: histories through the real binary ----------
-    names = None
-    geom = "whitebox"
-    if have_geom:
-        rc, o, e = core.sh([os.path.join(wb, "geom"), "3"], timeout=60)
-        if rc == 0:
-            names = re.findall(r"NAME (\S+)", o) + re.findall(r"NEAR (\S+)", o)
-            ctx.cover(macro_table=re.search(r"CAP.*", o).group(0))
-    if not names or len(names) != 4:
-        geom = "fallback-fnv-guess"
-        names, cap, cnt = [], 128, {}
+    def fallback_names(home_last):
+        cap, cnt = 128, {}
         for i in range(100000):
             n = "VPM%d" % i
-            cnt.setdefault(fnv(n) % cap, []).append(n)
-            if len(cnt[fnv(n) % cap]) == 3:
-                names = cnt[fnv(n) % cap]
-                h = fnv(n) % cap
-                break
-        names.append(next("VPN%d" % i for i in range(100000) if fnv("VPN%d" % i) % cap == (h + 1) % cap))
-    ctx.cover(macro_geometry=geom, colliding_macro_names=names)
-    # alphabet A: 3 colliding names (two values for the first two); alphabet B adds the neighbouring name
+            hh = fnv(n) % cap
+            if home_last and hh != cap - 1:
+                continue
+            cnt.setdefault(hh, []).append(n)
+            if len(cnt[hh]) == 3:
+                return cnt[hh] + [next("VPN%d" % j for j in range(100000) if fnv("VPN%d" % j) % cap == (hh + 1) % cap)]
+
+    geom = "whitebox"
+    name_sets = []
+    for label, extra in (("colliding", []), ("colliding-at-last-bucket", ["-1"])):
+        names = None
+        if have_geom:
+            rc, o, e = core.sh([os.path.join(wb, "geom"), "3"] + extra, timeout=60)
+            if rc == 0:
+                names = re.findall(r"NAME (\S+)", o) + re.findall(r"NEAR (\S+)", o)
+                ctx.cover(**{"macro_table_" + label.replace("-", "_"): re.search(r"CAP.*", o).group(0)})
+        if not names or len(names) != 4:
+            geom = "fallback-fnv-guess"
+            names = fallback_names(bool(extra))
+        name_sets.append((label, names, {}))
+    # predefined names: the initial definitions are read from the binary itself (the property is about the history
+    # of operations on them, not about which macros are predefined)
+    pre = ["unix", "linux", "__STDC_VERSION__", "__x86_64__"]
+    psrc = os.path.join(ctx.mkdir("pre"), "p.c")
+    open(psrc, "w").write("".join("Q%d: %s\n" % (i, n) for i, n in enumerate(pre)))
+    st, out, err = core.run_limited([ctx.chibicc, "-cc1", "-E", "-cc1-input", psrc, psrc])
+    init = {}
+    for i, n in enumerate(pre):
+        m = re.search(r"^Q%d: (.*)$" % i, out, re.M)
+        if st == 0 and m and m.group(1).strip() != n and len(m.group(1).split()) == 1:
+            init[i] = m.group(1).strip()
+    if len(init) >= 2:
+        name_sets.append(("predefined", pre, init))
+    ctx.cover(macro_geometry=geom, macro_name_sets={l: n for l, n, _ in name_sets})
+    # alphabet A: 3 names (two values for the first two); alphabet B adds the fourth (neighbouring) name
     opsA = [("def", 0, 1), ("def", 0, 2), ("undef", 0, 0), ("def", 1, 1), ("def", 1, 2), ("undef", 1, 0),
             ("def", 2, 1), ("undef", 2, 0)]
     opsB = opsA + [("def", 2, 2), ("def", 3, 1), ("undef", 3, 0)]
-    plan = [(opsA, 5), (opsB, 3)] if ctx.tier == "quick" else [(opsA, 6), (opsB, 5)]
-    hists = []
-    for ops, L in plan:
-        hists += list(itertools.product(ops, repeat=L))
-    # growth of the real macro table in the middle of a history: a filler block at every position of every short history
-    nfill = 60
-    Lg = 3 if ctx.tier == "quick" else 4
-    grow = []
-    for h0 in itertools.product(opsA, repeat=Lg):
-        for pos in range(Lg + 1):
-            grow.append(tuple(h0[:pos]) + (("fill", nfill, 0),) + tuple(h0[pos:]))
-    ngrow = len(grow)
-    L = plan[0][1]
-    hists += grow
-    batches = core.chunks(hists, max(1, len(hists) // (core.NPROC * 8) + 1))
-    args = [(ctx.chibicc, os.path.join(ctx.work, "cli%d" % i), names, b) for i, b in enumerate(batches)]
-    res = core.pmap(_cli_batch, args)
-    nruns = sum(r[0] for r in res)
-    for n, bad in res:
-        for problem, hist, split, opts, text, tail in bad:
-            hs = " ".join("fill(%d)" % k if op == "fill" else "%s(%s%s)" % (op, names[k], ",%d" % v if op == "def" else "") for op, k, v in hist)
-            ctx.violation("C17|macro-cli|%s" % problem,
-                          "macro table history [%s] split=%d -> %s" % (hs, split, problem),
-                          files={"h.c": text, "opts.txt": " ".join(opts) + "\n",
-                                 "expected.txt": "\n".join("P%d: %s" % (i, _expected(names, hist, i)) for i in range(len(hist))) + "\n"},
-                          replay=("$CHIBICC -cc1 -E $(cat opts.txt) -cc1-input h.c h.c > got.txt 2>&1 || exit 1\n"
-                                  "grep '^P' got.txt | while read l; do grep -qxF \"$l\" expected.txt || exit 1; done || exit 1\nexit 0"))
-    ctx.cover(traces_validated_against_impl=nruns, cli_histories=len(hists), cli_histories_with_table_growth=ngrow, cli_history_plan=[[len(o), l] for o, l in plan])
-    ctx.sample({"level": 2, "names": names, "history": [list(x) for x in hists[len(hists) // 3]],
-                "rendering": _hist_text(names, hists[len(hists) // 3], L // 2)}, limit=6)
+    nruns = nh = ngrow = 0
+    for label, names, init in name_sets:
+        if label == "colliding":
+            plan = [(opsA, 5), (opsB, 3)] if ctx.tier == "quick" else [(opsA, 6), (opsB, 5)]
+        else:
+            plan = [(opsA, 4), (opsB, 3)] if ctx.tier == "quick" else [(opsA, 5), (opsB, 4)]
+        hists = []
+        for ops, L in plan:
+            hists += list(itertools.product(ops, repeat=L))
+        if label != "predefined":
+            # growth of the real macro table in the middle of a history: a filler block at every position of every short history
+            nfill = 60
+            Lg = 3 if ctx.tier == "quick" else 4
+            grow = []
+            for h0 in itertools.product(opsA, repeat=Lg):
+                for pos in range(Lg + 1):
+                    grow.append(tuple(h0[:pos]) + (("fill", nfill, 0),) + tuple(h0[pos:]))
+            ngrow += len(grow)
+            hists += grow
+        nh += len(hists)
+        batches = core.chunks(hists, max(1, len(hists) // (core.NPROC * 8) + 1))
+        args = [(ctx.chibicc, os.path.join(ctx.work, "cli_%s_%d" % (label, i)), names, b, init) for i, b in enumerate(batches)]
+        res = core.pmap(_cli_batch, args)
+        nruns += sum(r[0] for r in res)
+        for n, bad in res:
+            for problem, hist, split, opts, text, tail in bad:
+                hs = " ".join("fill(%d)" % k if op == "fill" else "%s(%s%s)" % (op, names[k], ",%d" % v if op == "def" else "") for op, k, v in hist)
+                ctx.violation("C17|macro-cli|%s|%s" % (label, problem),
+                              "macro table history [%s] split=%d (first %d operations as -D/-U options) -> %s" % (hs, split, split, problem),
+                              files={"h.c": text, "opts.txt": " ".join(opts) + "\n",
+                                     "expected.txt": "\n".join("P%d: %s" % (i, _expected(names, hist, i, init)) for i in range(len(hist))) + "\n"},
+                              replay=("$CHIBICC -cc1 -E $(cat opts.txt) -cc1-input h.c h.c > got.txt 2>&1 || exit 1\n"
+                                      "grep '^P' got.txt | while read l; do grep -qxF \"$l\" expected.txt || exit 1; done || exit 1\nexit 0"))
+        ctx.sample({"level": 2, "name_set": label, "names": names, "history": [list(x) for x in hists[len(hists) // 3]],
+                    "rendering": _hist_text(names, hists[len(hists) // 3], 1)}, limit=7)
+    ctx.cover(traces_validated_against_impl=nruns, cli_histories=nh, cli_histories_with_table_growth=ngrow)
     ctx.assume("hash geometry (capacity, hash function) is read from the tree's own hashmap.c/preprocess.c; "
                "if that white-box build fails the CLI level falls back to an FNV guess (macro_geometry field)")
-    ctx.assume("key universe is bounded (<= 3 colliding + 2 neighbouring + 10 filler keys); larger universes are not explored")
+    ctx.assume("key universes are bounded (<= 4 colliding + 2 neighbouring + 10 filler keys; 20 keys with at most 1-2 live for churn); larger universes are not explored")
